@@ -23,6 +23,7 @@ import (
 	banktypes "github.com/cosmos/cosmos-sdk/x/bank/types"
 
 	feedstypes "github.com/bandprotocol/chain/v3/x/feeds/types"
+	tunnelkeeper "github.com/bandprotocol/chain/v3/x/tunnel/keeper"
 	tunneltypes "github.com/bandprotocol/chain/v3/x/tunnel/types"
 
 	"verif/harness/gen"
@@ -795,6 +796,27 @@ func runC17(c c17Case) *pbt.Verdict {
 			}
 			if !okc || total != sum {
 				v.Failf("C17/total-vs-sum", "tunnel %d TotalDeposit %s but its deposit records sum to %v", id, ct.TotalDeposit, sum)
+			}
+			// the same ledger as a user reads it: the deposits query of this tunnel lists exactly this tunnel's records
+			if qr, qerr := tunnelkeeper.NewQueryServer(k).Deposits(ctx, &tunneltypes.QueryDepositsRequest{TunnelId: id}); qerr != nil {
+				v.Failf("C17/deposits-query", "tunnel %d: deposits query failed: %v", id, qerr)
+			} else {
+				var qsum amt3
+				for _, d := range qr.Deposits {
+					a, okq := fromCoins(d.Amount)
+					if d.TunnelID != id || !okq {
+						v.Failf("C17/deposits-query", "deposits query of tunnel %d lists %v", id, d)
+						continue
+					}
+					if u := userIdx(d.Depositor); u < 0 || a != chainDeps[id][u] {
+						v.Failf("C17/deposits-query", "deposits query of tunnel %d lists %v, the deposit record says %v", id, d, chainDeps[id])
+					}
+					qsum = add(qsum, a)
+				}
+				if qsum != sum {
+					v.Failf("C17/deposits-query", "deposits query of tunnel %d sums to %v, its deposit records to %v (TotalDeposit %s)", id, qsum, sum, ct.TotalDeposit)
+				}
+				v.Count("deposit_queries", 1)
 			}
 			for u := 0; u < nUsers; u++ {
 				if chainDeps[id][u] != t.dep[u] {
